@@ -104,6 +104,29 @@ def ob_c02_sites(info):
     return out
 
 
+def ob_loop_state(info):
+    """Name the loop-carried values of class `other` that are not in the committed review for the present text of their
+    function (Lean's C17.loop_state_reviewed decides; this mirror names them and the lints that reach the function)."""
+    import os
+    f = _load("facts.json")
+    vdir = os.path.dirname(os.path.dirname(os.path.abspath(__file__)))
+    try:
+        reviewed = {(r["func"], r["var"], r["ctx"]) for r in json.load(open(os.path.join(vdir, "loop_state_reviewed.json"))).get("entries", [])}
+    except Exception:
+        reviewed = set()
+    out = []
+    focus = set()
+    for x in f.get("loop_state") or []:
+        if x["class"] == "other" and (x["func"], x["var"], x["ctx"]) not in reviewed:
+            reach = [r["name"] for r in f["registrations"] if x["func"] in (r.get("reach") or [])]
+            focus.update(reach[:12])
+            out.append(("variable `%s` in %s (%s) carries a value from one loop iteration to the next that is neither a flag, a counter nor a collected list%s: the answer may depend on the order of the list; not in the committed review for the present text of the function" % (
+                x["var"], x["func"].replace("github.com/zmap/zlint/v3/", ""), x["pos"], (" (" + x["note"] + ")") if x.get("note") else ""),
+                {"loop_state": x, "reached_from_lints": reach[:20]}, "loop-state:%s|%s" % (x["func"], x["var"])))
+    info["loop_focus"] = sorted(focus)[:40]
+    return out
+
+
 def dyn_c06(info):
     """lints whose extracted status set holds a status their prefix forbids and that is not a committed known finding:
     aim a ten-fold mutation sweep at exactly those lints to look for an input that makes them report it"""
@@ -286,14 +309,16 @@ PROPS = {
         "proofs": ["ZlProofs.Props.C17", "ZlProofs.Props.Bodies", "ZlProofs.Props.C05"],  # C05: no lint writes the object or package-level state  # Bodies: run_similar (order independence of every translated rule)
         "corr": ["names", "bodies"],
         "search": ["c17"],
+        "obligations": [ob_loop_state],
         "trusted_base": TB_COMMON + ["the hand-written scan classification of list-reading lints in ZlProofs/Props/C17.lean (part of the specification; totality against the extracted readers is a kernel-checked obligation)",
                                      "the extractor's loop-status facts (which statuses a lint can return from inside a range loop)"],
         "assumptions": ["self-issued certificates are excluded from the permutation search (permuting changes the signed bytes, and SelfSigned depends on signature verification)"],
         "partial": "that each rule body is the scan its class says is established by classification + permutation search, not by translating the body",
     },
     "C20": {
-        "proofs": ["ZlProofs.Props.C20", "ZlProofs.Props.C05", "ZlProofs.Props.Bodies"],  # C05: two rules can only be compared on "the same content" if each is a function of the object (no memory between calls); Bodies: twin_agrees, dsa_twins, san_ian_twins on the regenerated terms
+        "proofs": ["ZlProofs.Props.C20", "ZlProofs.Props.C05", "ZlProofs.Props.Bodies", "ZlProofs.Props.C17"],  # C17: two copies of a rule agree on a list only if each is blind to its order  # C05: two rules can only be compared on "the same content" if each is a function of the object (no memory between calls); Bodies: twin_agrees, dsa_twins, san_ian_twins on the regenerated terms
         "corr": ["names", "thresholds", "bodies"],
+        "obligations": [ob_loop_state],
         "search": ["c20", "c05"],  # c05: histories, incl. a re-used read buffer — a twin that remembers an earlier answer contradicts its mirror image
         "trusted_base": TB_COMMON + ["the pair table in ZlProofs/Props/C20.lean and harness/pairs.go (transcribed from the property)"],
         "assumptions": [],
